@@ -1,7 +1,7 @@
 (* One entry point for the OCaml runner: op name and byte-string arguments
    in, (result bytes, tag text) out.  All structure is decoded here, in Coq. *)
 From Coq Require Import NArith ZArith List Bool String.
-From GJ Require Import Base.Bytes Base.Show Model.Int Model.StrEnc.
+From GJ Require Import Base.Bytes Base.Show Model.Int Model.StrEnc Model.StrDec.
 Import ListNotations.
 Open Scope N_scope.
 Open Scope string_scope.
@@ -30,4 +30,12 @@ Definition dispatch (op : list N) (args : list (list N)) : list N * list N :=
   else if list_eqb op (str "c17.enc") then
     (* arg0: "11" / "10" / "01" / "00" = html,normalize ; arg1: the Go string *)
     (append_string_v (N.eqb (nth 0 (arg 0 args) 48) 49) (N.eqb (nth 1 (arg 0 args) 48) 49) (arg 1 args), [])
+  else if list_eqb op (str "c17.dec_buf") then
+    match unmarshal_string (arg 0 args) with
+    | StrStuck => (str "stuck", [])
+    | StrRes err v =>
+        (str "err=" ++ show_bool err ++ str " value=" ++
+           match v with None => str "-" | Some x => show_hex x end,
+         if err then match v with Some _ => str "PartialStoreBeforeError" | None => [] end else [])
+    end
   else (str "no-model", []).
